@@ -23,6 +23,7 @@ M = [
  ('s_ret_before_invert', 'S', "        acc = acc.montgomery_invert().from_montgomery();\n\n        // We need to return the product of all inverses later\n        let ret = acc.pack();\n",
                                "        let ret = acc.pack();\n        acc = acc.montgomery_invert().from_montgomery();\n"),
  ('s_no_from_montgomery', 'S', "        acc = acc.montgomery_invert().from_montgomery();\n", "        acc = acc.montgomery_invert();\n"),
+ ('s_no_invert', 'S', "        acc = acc.montgomery_invert().from_montgomery();\n", ""),
  ('s_no_zeroize', 'S', "        #[cfg(feature = \"zeroize\")]\n        Zeroize::zeroize(&mut scratch);\n", ""),
  ('s_zeroize_other', 'S', "        Zeroize::zeroize(&mut scratch);\n", "        Zeroize::zeroize(&mut vec![one; n]);\n"),
  ('s_loop1_acc_square', 'S', "            acc = UnpackedScalar::montgomery_mul(&acc, &tmp);\n", "            acc = UnpackedScalar::montgomery_mul(&tmp, &tmp);\n"),
